@@ -1,5 +1,7 @@
 package q
 
+import "fmt"
+
 type VariableExpr struct {
 	Name string
 }
@@ -9,6 +11,20 @@ func (e *VariableExpr) Evaluate(engine *Engine, input interface{}, args []*State
 	if err != nil {
 		return nil, err
 	}
+
+	// There are no conditionals, so a variable that needs its own value (even
+	// through other variables) could never finish evaluating.
+	if engine.evaluating[e.Name] {
+		return nil, fmt.Errorf("variable %s is defined in terms of itself",
+			e.Name)
+	}
+
+	if engine.evaluating == nil {
+		engine.evaluating = map[string]bool{}
+	}
+
+	engine.evaluating[e.Name] = true
+	defer delete(engine.evaluating, e.Name)
 
 	return v.Evaluate(engine, input)
 }
